@@ -197,6 +197,7 @@ func c20GenSPM(t *rapid.T) c20Case {
 	c.AddBOS = rapid.Bool().Draw(t, "addbos")
 	c.AddEOS = rapid.IntRange(0, 3).Draw(t, "addeos") == 0
 	c.Parts = c20GenParts(t, "", c20SPMSpecials)
+	c.SpecialFirst = rapid.IntRange(0, 2).Draw(t, "special_first") == 0
 	c.NMerges = rapid.SampledFrom([]int{0, 0, 2, 5, 10, 20, 40, 80}).Draw(t, "nmerges")
 	if c.NMerges > 0 {
 		c.ScoreMode = rapid.IntRange(0, 3).Draw(t, "scoremode")
@@ -225,6 +226,7 @@ func c20RunSPM(c c20Case) (c20Info, error) {
 	v := c20SPMVocab(c)
 	spm := NewSentencePieceModel(v)
 	tok := c20NewTok(spm, v)
+	tok.specialFirst = c.SpecialFirst
 	warmed := false
 	if w, ok := c20EarlierText(c, tok.specials); ok && !strings.Contains(w, spmWhitespaceSep) {
 		// a tokenizer serves many texts: an earlier one (the same parts in reverse order, so other special literals come
